@@ -72,12 +72,18 @@ package owa
 //@   ensures [old_kept] forall j int :: 0 <= j && j < len(*o.Weights) ==> exists k int :: 0 <= k && k < len(*result.Weights) && (*result.Weights)[k] == (*o.Weights)[j]
 //@   ensures [new_added] forall j int :: 0 <= j && j < len(*other.Weights) ==> exists k int :: 0 <= k && k < len(*result.Weights) && (*result.Weights)[k] == (*other.Weights)[j]
 //@   ensures [sorted] forall i int, j int :: 0 <= i && i < j && j < len(*result.Weights) ==> (*result.Weights)[i].Weight <= (*result.Weights)[j].Weight
+//@   ensures [nothing_else] forall k int :: 0 <= k && k < len(*result.Weights) ==> ((exists j int :: 0 <= j && j < len(*o.Weights) && (*result.Weights)[k] == (*o.Weights)[j])
+//@             || (exists j int :: 0 <= j && j < len(*other.Weights) && (*result.Weights)[k] == (*other.Weights)[j]))
 
 //@ func (*OwaBiasListener).Merge
 //@   property C07 C18 C03 C01 C09 C19 C20
 //@   refines model.BiasListener.Merge with validParams=owaValid, coversId=owaCovers, accepts=owaAccepts, acceptsAny=owaAcceptsAny
 //@   ensures [a_single_added_weight_is_taken_as_given] typeis(addition, model.WeightType) ==> forall q string :: q in addition.(model.WeightType).Weights ==>
 //@             exists k int :: 0 <= k && k < len(*result.(owaParams).Weights) && (*result.(owaParams).Weights)[k].Id == q && (*result.(owaParams).Weights)[k].Weight == addition.(model.WeightType).Weights[q]
+//@   ensures [and_nothing_but_the_old_weights_and_the_added_ones] typeis(addition, model.WeightType) ==> forall k int :: 0 <= k && k < len(*result.(owaParams).Weights) ==>
+//@             ((exists j int :: 0 <= j && j < len(*params.(owaParams).Weights) && (*result.(owaParams).Weights)[k] == (*params.(owaParams).Weights)[j])
+//@              || (*result.(owaParams).Weights)[k].Id in addition.(model.WeightType).Weights)
+//@   loop 1 invariant [only_converted] forall j int :: 0 <= j && j < len(added) ==> added[j].Id in addition.(model.WeightType).Weights
 //@   loop 1 invariant [converted] forall q string :: seen(q) ==> exists j int :: 0 <= j && j < len(added) && added[j].Id == q && added[j].Weight == addition.(model.WeightType).Weights[q]
 //@   loop 1 invariant [ctx] typeis(addition, model.WeightType) && !typeis(addition, owaParams) && fresh(added) && typeis(params, owaParams) && params.(owaParams).Weights != nil
 
